@@ -1435,6 +1435,220 @@ fn deep_main(args: &[String]) {
     std::process::exit(0);
 }
 
+// ---------------------------------------------------------------------------------------------------- mixup probe
+// Element::check_version_compatibility reads `self.element_type().get_sub_element_version_mask(&indices).unwrap()` with the
+// indices that the RECALCULATED type (parent's stored type + own name) returned.  After a move / copy the stored type may be
+// another type of the same name (C07/C17 class attach-keeps-stored-type): the index list of one type is used on another.
+// `avh panics mixup <dump> [limit] [outdir]`: static search over the specification for (stored type c1, recalculated type c2, child name)
+// where that lookup panics or returns None, then the scenario is built through the public API and the call is made.
+fn mx_subs_in(t: autosar_data_specification::ElementType, v: u32) -> Vec<(ElementName, autosar_data_specification::ElementType, u32, u32)> {
+    let mut seen = std::collections::HashSet::new();
+    let mut out = vec![];
+    for (n, et, m, nm) in t.sub_element_spec_iter() {
+        if m & v != 0 && seen.insert(n) {
+            out.push((n, et, m, nm));
+        }
+    }
+    out
+}
+
+fn mixup_main(args: &[String]) {
+    use autosar_data_specification::ElementType;
+    use std::collections::{HashMap, HashSet, VecDeque};
+    let limit: usize = args.get(1).map(|x| x.parse().unwrap()).unwrap_or(20);
+    let ver = AutosarVersion::LATEST;
+    let v = ver as u32;
+    let versions: Vec<AutosarVersion> = (0..32).filter_map(|k| AutosarVersion::from_val(1u32 << k)).collect();
+    // reachability in v: type -> (parent type, name, named)
+    let mut reach: HashMap<ElementType, (ElementType, ElementName, bool)> = HashMap::new();
+    let mut q = VecDeque::new();
+    let mut seen: HashSet<ElementType> = HashSet::new();
+    q.push_back(ElementType::ROOT);
+    seen.insert(ElementType::ROOT);
+    let mut order = vec![ElementType::ROOT];
+    while let Some(t) = q.pop_front() {
+        for (n, et, _m, nm) in mx_subs_in(t, v) {
+            if seen.insert(et) {
+                reach.insert(et, (t, n, nm & v != 0));
+                q.push_back(et);
+                order.push(et);
+            }
+        }
+    }
+    let path_of = |t: ElementType| -> Option<Vec<(ElementName, bool)>> {
+        let mut p = vec![];
+        let mut cur = t;
+        while cur != ElementType::ROOT {
+            let (par, n, named) = reach.get(&cur)?;
+            p.push((*n, *named));
+            cur = *par;
+        }
+        p.reverse();
+        Some(p)
+    };
+    let mut by_name: BTreeMap<String, Vec<(ElementType, ElementType, ElementName, bool)>> = BTreeMap::new();
+    for t in &order {
+        for (n, et, _m, nm) in mx_subs_in(*t, v) {
+            by_name.entry(n.to_str().to_string()).or_default().push((*t, et, n, nm & v != 0));
+        }
+    }
+    let prev = std::panic::take_hook();
+    std::panic::set_hook(Box::new(|_| {}));
+    let mut cands = vec![];
+    let mut pairs = 0u64;
+    for (_nm, l) in &by_name {
+        let mut types: Vec<ElementType> = vec![];
+        for (_, c, _, _) in l {
+            if !types.contains(c) {
+                types.push(*c);
+            }
+        }
+        if types.len() < 2 {
+            continue;
+        }
+        for (p1, c1, name, named1) in l {
+            for (p2, c2v, _, _) in l {
+                if c1 == c2v {
+                    continue;
+                }
+                pairs += 1;
+                for (sn, st, _m, snm) in mx_subs_in(*c1, v) {
+                    if sn == ElementName::ShortName {
+                        continue;
+                    }
+                    for t in &versions {
+                        let tv = *t as u32;
+                        // Element::recalc_element_type under the new parent
+                        let c2 = p2.find_sub_element(*name, tv).map(|(e, _)| e).unwrap_or(*c1);
+                        if c2 == *c1 {
+                            continue;
+                        }
+                        let found = c2.find_sub_element(sn, tv).or(c2.find_sub_element(sn, u32::MAX));
+                        if let Some((_, idx)) = found {
+                            let c1c = *c1;
+                            let idx2 = idx.clone();
+                            let r = std::panic::catch_unwind(move || c1c.get_sub_element_version_mask(&idx2));
+                            let bad = match &r { Ok(Some(_)) => None, Ok(None) => Some("none"), Err(_) => Some("panic") };
+                            if let Some(kind) = bad {
+                                cands.push((kind, *p1, *c1, *name, *named1, *p2, c2, sn, st, snm & v != 0, *t, idx));
+                            }
+                        }
+                    }
+                }
+            }
+        }
+    }
+    println!("STAT mixup static: name/type pairs={} candidates={}", pairs, cands.len());
+    // dynamic confirmation through the public API (operations of the tree harness, so that the scenario is a replayable script)
+    let names = Names::load(&args[0]);
+    let outdir = args.get(2).cloned().unwrap_or_else(|| ".".to_string());
+    let mut shown = 0usize;
+    let mut confirmed = 0usize;
+    let mut tried = 0usize;
+    let mut seen_key: HashSet<String> = HashSet::new();
+    let hn = |r: &str| -> Option<usize> { r.strip_prefix("R OK h").and_then(|x| x.parse::<usize>().ok()) };
+    for (kind, p1, c1, name, named1, p2, c2, sn, _st, snamed, t, idx) in &cands {
+        let key = format!("{:?}{:?}{}{:?}", c1, c2, sn.to_str(), kind);
+        if !seen_key.insert(key) {
+            continue;
+        }
+        if tried >= 400 {
+            break;
+        }
+        let (Some(path1), Some(path2)) = (path_of(*p1), path_of(*p2)) else { continue };
+        'how: for how in ["move", "copy"] {
+            let mut ex = Exec::new(&names);
+            let mut ops: Vec<Op> = vec![];
+            let mut ctr = 0usize;
+            let push = |ex: &mut Exec, ops: &mut Vec<Op>, op: Op| -> String {
+                let r = ex.apply(&op);
+                ops.push(op);
+                r
+            };
+            push(&mut ex, &mut ops, Op::NewModel);
+            push(&mut ex, &mut ops, Op::CreateFile(0, b"f0.arxml".to_vec(), v));
+            let mut ends = vec![];
+            for path in [&path1, &path2] {
+                let mut cur = 0usize;
+                for (n, named) in path.iter() {
+                    let existing = ex.handles[cur].sub_elements().find(|s| s.element_name() == *n).and_then(|c| ex.hidx.get(&c).copied());
+                    cur = match existing {
+                        Some(c) => c,
+                        None => {
+                            let r = if *named {
+                                ctr += 1;
+                                push(&mut ex, &mut ops, Op::CreateNamed(cur, *n as u16, format!("n{}", ctr).into_bytes()))
+                            } else {
+                                push(&mut ex, &mut ops, Op::CreateSub(cur, *n as u16))
+                            };
+                            let Some(c) = hn(&r) else { continue 'how };
+                            c
+                        }
+                    };
+                }
+                ends.push(cur);
+                if ends.len() == 1 {
+                    // the element with the stored type c1 and its child
+                    if ex.handles[cur].element_type() != *p1 {
+                        continue 'how;
+                    }
+                    let r = if *named1 {
+                        ctr += 1;
+                        push(&mut ex, &mut ops, Op::CreateNamed(cur, *name as u16, format!("n{}", ctr).into_bytes()))
+                    } else {
+                        push(&mut ex, &mut ops, Op::CreateSub(cur, *name as u16))
+                    };
+                    let Some(x) = hn(&r) else { continue 'how };
+                    if ex.handles[x].element_type() != *c1 {
+                        continue 'how;
+                    }
+                    let r = if *snamed {
+                        ctr += 1;
+                        push(&mut ex, &mut ops, Op::CreateNamed(x, *sn as u16, format!("n{}", ctr).into_bytes()))
+                    } else {
+                        push(&mut ex, &mut ops, Op::CreateSub(x, *sn as u16))
+                    };
+                    if hn(&r).is_none() {
+                        continue 'how;
+                    }
+                    ends.push(x);
+                }
+            }
+            let (h1, x, h2) = (ends[0], ends[1], ends[2]);
+            if ex.handles[h2].element_type() != *p2 || h2 == h1 {
+                continue;
+            }
+            let r = push(&mut ex, &mut ops, if how == "move" { Op::Move(h2, x) } else { Op::Copy(h2, x) });
+            if !r.starts_with("R OK") {
+                continue;
+            }
+            tried += 1;
+            let f2 = ex.files[0].clone();
+            let tt = *t;
+            let res = std::panic::catch_unwind(std::panic::AssertUnwindSafe(move || f2.check_version_compatibility(tt)));
+            let outcome = if res.is_err() { "PANIC" } else { "ok" };
+            if res.is_err() {
+                confirmed += 1;
+                if confirmed <= 2 {
+                    let mut lines: Vec<String> = ops.iter().map(|o| o.line()).collect();
+                    lines.push(Call::QFile(0).line());
+                    let pth = write_script(&outdir, &format!("mixup-{}", how), &lines);
+                    println!("MIXUP-SCRIPT {}", pth);
+                }
+            }
+            if shown < limit && (res.is_err() || shown < 3) {
+                shown += 1;
+                println!("MIXUP {} static={} how={} name={} stored={:?} recalculated={:?} child={} target={:?} indices={:?} p1={} p2={}",
+                    outcome, kind, how, name.to_str(), c1, c2, sn.to_str(), t, idx,
+                    path1.iter().map(|(n, _)| n.to_str()).collect::<Vec<_>>().join("/"),
+                    path2.iter().map(|(n, _)| n.to_str()).collect::<Vec<_>>().join("/"));
+            }
+        }
+    }
+    std::panic::set_hook(prev);
+    println!("STAT mixup dynamic: scenarios tried={} panics confirmed={}", tried, confirmed);
+}
+
 pub fn main(args: &[String]) {
     if args.is_empty() {
         eprintln!("usage: avh panics fuzz|replay|deep ...");
@@ -1455,6 +1669,7 @@ pub fn main(args: &[String]) {
             replay_main(&args[1..])
         }
         "deep" => deep_main(&args[1..]),
+        "mixup" => mixup_main(&args[1..]),
         _ => {
             eprintln!("usage: avh panics fuzz|replay|deep ...");
             std::process::exit(2)
